@@ -551,7 +551,15 @@ def last_exception(stderr):
     return name
 
 
-def _run(cmd, cwd, timeout, hashseed):
+def _run(cmd, cwd, timeout, hashseed, _retry=True):
+    """one prophyc process. A run that exceeds `timeout` is repeated once with ten times the budget (at least
+    200 s) before it is reported as a timeout: on a loaded machine a 0.3 s compilation can take 20 s, and that is
+    not a hang. (Runs are deterministic and write only into their own scratch directory, so repeating is safe.)"""
+    if _retry:
+        r = _run(cmd, cwd, timeout, hashseed, _retry=False)
+        if r[3]:
+            r = _run(cmd, cwd, max(10 * timeout, 200), hashseed, _retry=False)
+        return r
     try:
         p = subprocess.run(cmd, cwd=cwd, env=_env(hashseed), capture_output=True, timeout=timeout)
         out = p.stdout.decode("utf-8", "replace")
